@@ -91,6 +91,9 @@ type IP struct {
 	Name    string // EFLO only
 	Status  string // EFLO only: "Available" | "Executing"
 	Primary bool
+	// transient (EFLO): the status is observed busy more times, then becomes Available
+	busy      int
+	transient bool
 }
 
 // ENI is one network interface of the simulated region.
@@ -490,6 +493,17 @@ func (cl *Cloud) end(c *Call, err error) error {
 
 // tick advances an interface in a middle status by one observation.
 func (e *ENI) tick() {
+	for i := range e.V4 {
+		ip := &e.V4[i]
+		if !ip.transient {
+			continue
+		}
+		if ip.busy > 0 {
+			ip.busy--
+			continue
+		}
+		ip.Status, ip.transient = aliyunClient.LENIIPStatusAvailable, false
+	}
 	if e.next == "" {
 		return
 	}
@@ -639,6 +653,26 @@ func (cl *Cloud) DriftAddIP(eniID string, n int, v6 bool) []string {
 		out = append(out, ip.Addr)
 	}
 	return out
+}
+
+// DriftIPStatus (EFLO) puts a non-primary address into a transient, non-Available status
+// (as the real API reports while an address is being created or removed): the next polls
+// observations of the interface see status, later ones see Available again. Returns false
+// if the interface is not an EFLO one or the address is missing or primary.
+func (cl *Cloud) DriftIPStatus(eniID, addr, status string, polls int) bool {
+	cl.mu.Lock()
+	defer cl.mu.Unlock()
+	e, ok := cl.ENIs[eniID]
+	if !ok || !e.EFLO {
+		return false
+	}
+	for i := range e.V4 {
+		if e.V4[i].Addr == addr && !e.V4[i].Primary {
+			e.V4[i].Status, e.V4[i].busy, e.V4[i].transient = status, polls, true
+			return true
+		}
+	}
+	return false
 }
 
 // DriftDeleteENI removes an interface behind the controller's back (whatever its state).
